@@ -1,6 +1,6 @@
 (* C18 - winding number, hit test, signed area and orientation agree with geometry. *)
 From Coq Require Import QArith Qminmax.
-From LV Require Import Base.Prelude Model.Bezier Model.Winding Proofs.C18_Winding.
+From LV Require Import Base.Prelude Model.Bezier Model.Winding Proofs.C18_Winding Gen.Functions Proofs.Gen_Functions.
 Open Scope Q_scope.
 
 (* for a point not on the outline the coded accumulation equals the signed crossing number,
@@ -60,6 +60,11 @@ Example C18_off_outline_example :
   path_winding (1#4, 1#4) [((0,0), [(1,0); (0,1)])] = (-1)%Z.
 Proof. vm_compute. reflexivity. Qed.
 
+(* the fill rule evaluation of the model (is_in) IS path/lib.rs's FillRule::is_in, translated from the source on every run
+   (Gen/Functions.v; Rust's % on i16 is Z.rem) *)
+Theorem C18_is_in_is_source : forall r w, src_fill_rule_is_in r w = is_in r w.
+Proof. exact src_fill_rule_is_in_is_model. Qed.
+
 Print Assumptions C18_hit_wn_spec.
 Print Assumptions C18_hit_test_is_in.
 Print Assumptions C18_is_in_spec.
@@ -72,3 +77,4 @@ Print Assumptions C18_area_fan_shoelace.
 Print Assumptions C18_area_reverse_neg.
 Print Assumptions C18_winding_sign_area.
 Print Assumptions C18_rectangle_direction.
+Print Assumptions C18_is_in_is_source.
